@@ -636,6 +636,39 @@ def gen_program(rng, size=20, rich=True, max_depth=3):
     return final, g.hist
 
 
+def gen_jump_family(rng, k):
+    """k small programs of ONE shape: same line numbers, same jump targets, same variable names, different constants and
+    bodies. Run as USER_PUNCH 1..k of one simulation they must not see each other's lines, variables, loop stack or
+    DATA pointer (the engine has a single interpreter that is pointed at one program after the other)."""
+    shape = rng.choice(["if-goto", "gosub", "on-goto", "restore", "for-gosub", "while-goto"])
+    step = rng.choice([10, 10, 5, 100])
+    L = [step * (i + 1) for i in range(12)]
+    progs = []
+    for _ in range(k):
+        c0, c1, n = rng.randint(-5, 50), rng.choice([1, 2, 0.5, -3, 10]), rng.randint(1, 5)
+        extra = rng.choice(["q = s * 2", "arr(1) = s : s = arr(1)", 'w$ = STR$(i)', "q = q + 1", "REM"])
+        if shape == "if-goto":
+            t = [f"{L[0]} s = {c0} : i = 0", f"{L[1]} i = i + 1 : s = s + i * {c1}", f"{L[2]} {extra}",
+                 f"{L[3]} IF i < {n} THEN GOTO {L[1]}", f"{L[4]} PUNCH s, i"]
+        elif shape == "gosub":
+            t = [f"{L[0]} s = {c0} : GOSUB {L[5]} : PUNCH s", f"{L[1]} GOSUB {L[5]} : PUNCH s, {n}", f"{L[2]} END",
+                 f"{L[5]} s = s * {c1} + {n} : {extra}", f"{L[6]} RETURN"]
+        elif shape == "on-goto":
+            t = [f"{L[0]} s = {c0} : ON {rng.randint(1, 3)} GOTO {L[2]}, {L[3]}, {L[4]}", f"{L[1]} PUNCH -1",
+                 f"{L[2]} s = s + {c1}", f"{L[3]} s = s * 2 : {extra}", f"{L[4]} PUNCH s, {n}"]
+        elif shape == "restore":
+            t = [f"{L[0]} RESTORE {L[3]} : READ s : PUNCH s", f"{L[1]} READ i : PUNCH i * {c1}", f"{L[2]} DATA {c0}",
+                 f"{L[3]} DATA {n}, {c0 + 1}", f"{L[4]} RESTORE {L[2]} : READ q : PUNCH q"]
+        elif shape == "for-gosub":
+            t = [f"{L[0]} s = {c0}", f"{L[1]} FOR i = 1 TO {n} : GOSUB {L[6]} : NEXT i", f"{L[2]} PUNCH s, i : END",
+                 f"{L[6]} s = s + i * {c1} : {extra} : RETURN"]
+        else:
+            t = [f"{L[0]} s = {c0} : i = 0", f"{L[1]} WHILE i < {n}", f"{L[2]} i = i + 1 : IF i = 2 THEN GOTO {L[4]}",
+                 f"{L[3]} s = s + {c1}", f"{L[4]} WEND", f"{L[5]} PUNCH s, i"]
+        progs.append("\n".join(t))
+    return progs
+
+
 # ---------------------------------------------------------------------- malformed mutants
 MUTATIONS = ["drop-token", "dup-token", "swap-keyword", "unbalance-paren", "unbalance-quote", "drop-line", "bad-goto",
              "type-mix", "bad-subscript", "redim", "drop-lineno", "stray-char", "next-wo-for", "wend-wo-while",
